@@ -51,6 +51,18 @@ func c15family(thorough bool, add func(cfg *Config, bound int, maxExec int64, or
 			}
 		}
 	}
+	// repeating steps: between two iterations the step still holds its slot; the run is ended by a stop at every explored instant
+	dur := func(s StepCfg, ms int) StepCfg { s.DurMs = ms; return s }
+	rep := func(s StepCfg, ms int) StepCfg { s.Repeat, s.RepeatMs = true, ms; return s }
+	for _, k := range []int{1, 2} {
+		for _, p := range [][]StepCfg{
+			{rep(st("a"), 1000), dur(st("b"), 1500), st("c")},
+			{dur(st("a"), 1500), rep(st("b"), 1000), st("c")},
+			{rep(dur(st("a"), 250), 1000), dur(st("b"), 1500), dur(st("c"), 250)},
+		} {
+			add(&Config{Steps: p, MaxActive: k, Stop: true}, 0, 600000, "C15")
+		}
+	}
 	// preemptive exploration of the sharpest configuration: two parallel steps, limit 1, one retries
 	sharpC := &Config{MaxActive: 1, Steps: []StepCfg{retrying(st("a"), 1, 1, 1000), st("b")}}
 	sharpD := &Config{MaxActive: 2, Steps: []StepCfg{retrying(st("a"), 1, 1, 1000), st("b"), st("c")}}
